@@ -376,47 +376,42 @@ func splitPathImpl(expr string) []string {
 		return out
 	}
 
-	// Full parsing with bracket support
-	var b strings.Builder
-	b.Grow(len(expr) + 8)
-	i := 0
-	for i < len(expr) {
-		ch := expr[i]
-		if ch == '[' {
-			j := i + 1
-			for j < len(expr) && expr[j] != ']' {
-				j++
+	// Full parsing with bracket support: dotted segments are split at the dots, the content
+	// of a bracket is one part as it is (a quoted key may contain dots: hosts["example.com"])
+	var out []string
+	addDotted := func(seg string) {
+		for _, p := range strings.Split(seg, ".") {
+			if p = strings.TrimSpace(p); p != "" {
+				out = append(out, p)
 			}
-			if j >= len(expr) {
-				b.WriteByte(ch)
-				i++
-				continue
-			}
-			inside := strings.TrimSpace(expr[i+1 : j])
-			if len(inside) >= 2 && ((inside[0] == '\'' && inside[len(inside)-1] == '\'') || (inside[0] == '"' && inside[len(inside)-1] == '"')) {
-				inside = inside[1 : len(inside)-1]
-			}
-			if inside != "" {
-				b.WriteByte('.')
-				b.WriteString(inside)
-			}
-			i = j + 1
-		} else {
-			b.WriteByte(ch)
-			i++
 		}
 	}
-
-	builtStr := b.String()
-	parts := strings.Split(builtStr, ".")
-	// Sanitize in-place to avoid extra allocation
-	out := parts[:0]
-	for _, p := range parts {
-		p = strings.TrimSpace(p)
-		if p == "" {
+	start, i := 0, 0
+	for i < len(expr) {
+		if expr[i] != '[' {
+			i++
 			continue
 		}
-		out = append(out, p)
+		j := i + 1
+		for j < len(expr) && expr[j] != ']' {
+			j++
+		}
+		if j >= len(expr) {
+			// no closing bracket: the rest is taken as written
+			break
+		}
+		addDotted(expr[start:i])
+		inside := strings.TrimSpace(expr[i+1 : j])
+		if len(inside) >= 2 && ((inside[0] == '\'' && inside[len(inside)-1] == '\'') || (inside[0] == '"' && inside[len(inside)-1] == '"')) {
+			if inside = inside[1 : len(inside)-1]; inside != "" {
+				out = append(out, inside)
+			}
+		} else {
+			addDotted(inside)
+		}
+		i = j + 1
+		start = i
 	}
+	addDotted(expr[start:])
 	return out
 }
